@@ -41,13 +41,22 @@ func corpusSteps(n *Node) []Step {
 		Run("restore", "a"), Run("restore", "--staged", "a"), Run("rm", "d"), Run("restore", "d"), Run("restore", "--staged", "d"), Run("config", "user.name", "X Y"), Run("config", "--global", "user.name", "G"), Run("write-tree"), Write("a", fmt.Sprintf("edit %d\n", len(a.Objects)))}
 	if tip := a.Tip(); tip != "" {
 		steps = append(steps, Run("update-ref", "refs/heads/b", tip))
+		steps = append(steps, Run("cat-file", "-p", tip))
+	}
+	// read-only commands: a failing read must not silently change what they print
+	steps = append(steps, Run("status"), Run("log"), Run("reflog"), Run("ls-files", "-s"), Run("rev-parse", "HEAD"), Run("branch", "--list"))
+	if len(a.LogHEAD) > 30 {
+		// long journal (several reads): only the commands that consult it
+		return []Step{Run("reflog"), Run("reset", "--soft", "HEAD@{1}"), Run("reset", "--soft", "HEAD@{40}"), Run("log", "-n", "3"), Run("commit", "-m", "m"), Run("status")}
 	}
 	return steps
 }
 
 func corpusSeeds() []Seed {
 	return []Seed{{"empty", nil}, {"S0", seedS0()}, {"S1", seedS1()}, {"S2", seedS2()}, {"S3", seedS3()},
-		{"S1+edit", append(seedS1(), Write("a", "a edited\n"), Write("d/x", "d/x edited\n"), Write("n", "new\n"))}}
+		{"S1+edit", append(seedS1(), Write("a", "a edited\n"), Write("d/x", "d/x edited\n"), Write("n", "new\n"))},
+		{"S1+ignore", append(seedS1(), Write(".goitignore", "build/\n*.log\n"), Write("build/o", "o\n"), Write("x.log", "l\n"), Write("n", "new\n"))},
+		{"chain45", seedChain(45)}}
 }
 
 type c15Counters struct {
